@@ -1,4 +1,15 @@
-// ALM / stand-alone inner solver runs over every shipped solver stack (no tracing): C01, C02.
+// ALM / stand-alone inner solver runs over every shipped solver stack (no tracing): C01.
+//
+// Keys beyond solver_common.hpp / the inner-solver keys of `common()`:
+//   stack=panoc-|zerofpr-{lbfgs,slbfgs,anderson,noop,snewton,cnewton} | pantr-newtontr | fista
+//     snewton = StructuredNewtonDirection (needs the dense ∇²ψ: hessfull=1), cnewton = ConvexNewtonDirection
+//     (dense ∇²L, supports m = 0 only); pantr-newtontr with fd=0 uses the exact ∇²ψ·v (hessfull=1)
+//   hessfull=1   the problem also provides eval_hess_ψ_prod, eval_hess_ψ, eval_hess_L (dense)
+//   split=k      BoxConstrProblem::penalty_alm_split (rows < k: quadratic penalty only)
+//   mode=kkt     no solve: compute_kkt_error at (x0, y0)
+//   tol dtol almiter penfac initpen maxpen minpen maxmult inittol tolfac singlepen usesig   ALMParams
+#include <alpaqa/inner/directions/panoc/convex-newton.hpp>
+#include <alpaqa/inner/directions/panoc/structured-newton.hpp>
 #include "solver_common.hpp"
 #include <alpaqa/implementation/inner/panoc.tpp>
 #include <alpaqa/implementation/inner/zerofpr.tpp>
@@ -20,6 +31,60 @@
 
 using namespace vs;
 namespace al = alpaqa;
+
+// PolyProblem with the second-order oracles the Newton-type directions ask for (generalised Hessian of
+//   ψ(x) = f(x) + ½ dist²_Σ(g(x) + Σ⁻¹y, D):  ∇²ψ v = ∇²L(x, ŷ) v + Σ_{j: ζ_j ∉ D_j} σ_j ∇g_j (∇g_jᵀ v),
+//   ζ = g(x) + Σ⁻¹y, ŷ = Σ(ζ − Π_D ζ), ∇g_j = A_j + b_j x)
+struct PolyProblemH : PolyProblem {
+    bool full_hess;
+    PolyProblemH(const KV &kv) : PolyProblem(kv), full_hess(kv.nat("hessfull", 0) != 0) {
+        penalty_alm_split = (index_t)kv.nat("split", 0);
+    }
+    void eval_hess_ψ_prod(crvec x, crvec y, crvec Σ, real_t scale, crvec v, rvec Hv) const {
+        vec gx(m), yh(m);
+        eval_g(x, gx);
+        std::vector<bool> act(m);
+        for (index_t j = 0; j < m; ++j) {
+            real_t ζ  = gx(j) + y(j) / Σ(j);
+            bool below = ζ < D.lowerbound(j), above = ζ > D.upperbound(j);
+            act[j]    = below || above;
+            yh(j)     = below ? Σ(j) * (ζ - D.lowerbound(j)) : above ? Σ(j) * (ζ - D.upperbound(j)) : real_t(0);
+        }
+        eval_hess_L_prod(x, yh, scale, v, Hv);
+        for (index_t j = 0; j < m; ++j) {
+            if (!act[j])
+                continue;
+            real_t d = 0;
+            for (index_t i = 0; i < n; ++i)
+                d += (A(j * n + i) + b(j) * x(i)) * v(i);
+            for (index_t i = 0; i < n; ++i)
+                Hv(i) += Σ(j) * d * (A(j * n + i) + b(j) * x(i));
+        }
+    }
+    template <class F>
+    void dense(F &&prod, rvec H_values) const { // column-major n×n from n products with unit vectors
+        vec unit = vec::Zero(n), col(n);
+        for (index_t k = 0; k < n; ++k) {
+            unit(k) = 1;
+            prod(unit, col);
+            for (index_t i = 0; i < n; ++i)
+                H_values(k * n + i) = col(i);
+            unit(k) = 0;
+        }
+    }
+    void eval_hess_ψ(crvec x, crvec y, crvec Σ, real_t scale, rvec H_values) const {
+        dense([&](crvec v, rvec Hv) { eval_hess_ψ_prod(x, y, Σ, scale, v, Hv); }, H_values);
+    }
+    void eval_hess_L(crvec x, crvec y, real_t scale, rvec H_values) const {
+        vec y0 = vec::Zero(m);
+        dense([&](crvec v, rvec Hv) { eval_hess_L_prod(x, y.size() == m ? y : crvec{y0}, scale, v, Hv); },
+              H_values);
+    }
+    bool provides_eval_hess_ψ_prod() const { return full_hess; }
+    bool provides_eval_hess_ψ() const { return full_hess; }
+    bool provides_eval_hess_L() const { return full_hess; }
+    std::string get_name() const { return "PolyProblemH"; }
+};
 
 template <class P>
 void common(P &p, const KV &kv) {
@@ -52,7 +117,7 @@ void common(P &p, const KV &kv) {
 template <class Inner>
 std::string run_stack(const KV &kv, Inner &&inner) {
     using InnerT = std::remove_cvref_t<Inner>;
-    PolyProblem poly{kv};
+    PolyProblemH poly{kv};
     al::TypeErasedProblem<config_t> te{&poly};
     vec x = kv.vecv("x0"), y = kv.vecv("y0");
     std::string out;
@@ -71,6 +136,10 @@ std::string run_stack(const KV &kv, Inner &&inner) {
             ap.max_multiplier = kv.flt("maxmult");
         if (kv.has("inittol"))
             ap.initial_tolerance = kv.flt("inittol");
+        if (kv.has("tolfac"))
+            ap.tolerance_update_factor = kv.flt("tolfac");
+        if (kv.has("minpen"))
+            ap.min_penalty = kv.flt("minpen");
         ap.single_penalty_factor = kv.nat("singlepen", 0) != 0;
         al::ALMSolver<InnerT> alm{ap, std::forward<Inner>(inner)};
         std::optional<vec> Σ;
@@ -98,7 +167,20 @@ std::string run_stack(const KV &kv, Inner &&inner) {
     return out;
 }
 
+// mode=kkt: no solve — alpaqa::compute_kkt_error at the given (x0, y0) (the utility is a pure function)
+std::string kkt_only(const KV &kv) {
+    PolyProblemH poly{kv};
+    al::TypeErasedProblem<config_t> te{&poly};
+    vec x = kv.vecv("x0"), y = kv.vecv("y0");
+    auto k = al::compute_kkt_error(te, x, y);
+    return "A Busy 0 " + vp::f2h(0) + ' ' + vp::f2h(0) + " 0 0 ; X " + vp::fmtv(x) + " ; Y " + vp::fmtv(y) + " ; K " +
+           vp::f2h(k.stationarity) + ' ' + vp::f2h(k.constr_violation) + ' ' + vp::f2h(k.complementarity) + ' ' +
+           vp::f2h(k.bounds_violation);
+}
+
 std::string dispatch(const KV &kv) {
+    if (kv.str("mode", "alm") == "kkt")
+        return kkt_only(kv);
     std::string st = kv.str("stack", "panoc-lbfgs");
     unsigned mem   = (unsigned)kv.nat("mem", 10);
     auto lb = [&] { al::LBFGSParams<config_t> p; p.memory = mem; return p; };
@@ -114,6 +196,10 @@ std::string dispatch(const KV &kv) {
             return run_stack(kv, al::PANOCSolver<al::AndersonDirection<config_t>>{p, {an()}});
         if (st == "panoc-noop")
             return run_stack(kv, al::PANOCSolver<al::NoopDirection<config_t>>{p, {}});
+        if (st == "panoc-snewton")
+            return run_stack(kv, al::PANOCSolver<al::StructuredNewtonDirection<config_t>>{p});
+        if (st == "panoc-cnewton")
+            return run_stack(kv, al::PANOCSolver<al::ConvexNewtonDirection<config_t>>{p});
     } else if (st.rfind("zerofpr-", 0) == 0) {
         al::ZeroFPRParams<config_t> p;
         common(p, kv);
@@ -125,6 +211,10 @@ std::string dispatch(const KV &kv) {
             return run_stack(kv, al::ZeroFPRSolver<al::AndersonDirection<config_t>>{p, {an()}});
         if (st == "zerofpr-noop")
             return run_stack(kv, al::ZeroFPRSolver<al::NoopDirection<config_t>>{p, {}});
+        if (st == "zerofpr-snewton")
+            return run_stack(kv, al::ZeroFPRSolver<al::StructuredNewtonDirection<config_t>>{p});
+        if (st == "zerofpr-cnewton")
+            return run_stack(kv, al::ZeroFPRSolver<al::ConvexNewtonDirection<config_t>>{p});
     } else if (st == "pantr-newtontr") {
         al::PANTRParams<config_t> p;
         common(p, kv);
